@@ -77,7 +77,7 @@ type run struct {
 	w     *world.World
 	v     *xfer.Verdict
 	calls []*call
-	pre   string // signature prefix: transport/scenario/variant
+	pre   string     // signature prefix: transport/scenario/variant
 	arm   func(bool) // opens / closes the window in which the explorer may deviate
 }
 
@@ -199,7 +199,7 @@ type params struct {
 	Idle   time.Duration
 	Ds     int
 	At     time.Duration // the closer acts at this absolute virtual time (0 = 500 ms after the readers blocked): 5 s and 10 s are the instants of the mux housekeeping tick
-	Stalls bool // goroutines may also be held up for 20 ms / 2 s before an atomic write (a deviation)
+	Stalls bool          // goroutines may also be held up for 20 ms / 2 s before an atomic write (a deviation)
 	Seed   int64
 }
 
